@@ -432,7 +432,11 @@ func hitIDs(res *bleve.SearchResult) []string {
 func TestC06IndexPaging(t *testing.T) {
 	ev := Ev("C06")
 	checkPropN(t, "C06", 300, func(t *rapid.T) {
-		c := BuildCorpus(t, CorpusOpts{Doc: DocGenOpts{Nums: SmallNums, Dates: c10Dates}, MaxSteps: 6})
+		dopts := DocGenOpts{Nums: SmallNums, Dates: c10Dates}
+		if rapid.IntRange(0, 2).Draw(t, "numberLikeWords") == 0 {
+			dopts.KWords = NumberLikeWords // keyword values that look like typed (prefix-coded) terms
+		}
+		c := BuildCorpus(t, CorpusOpts{Doc: dopts, MaxSteps: 6})
 		g := QGen{NoFuzzy: true, Nums: SmallNums, Dates: c10Dates,
 			LeafKinds: []string{"all", "all", "term", "match", "prefix", "numrange"}}
 		q := g.Tree(t, "q", 1)
